@@ -25,6 +25,7 @@ def _check(xs):
 
 
 CALLS = {}        # run id -> list of evaluated nodes; node functions refer to it by id only, so that a model written
+NONE_STR = {}     # run id -> how a node function spells an argument that is None ("-" = the spec's None constant)
 _RID = [0]        # with save_model and read back (a deep copy of every function) still reports to its run
 
 
@@ -109,6 +110,7 @@ class GraphRun:
         _RID[0] += 1
         self.rid = _RID[0]
         self.calls = CALLS[self.rid] = []
+        NONE_STR[self.rid] = self.none_str
         self.nodes = {}
         self.vars = {}
         init = {}
@@ -151,8 +153,11 @@ class GraphRun:
         self.calls.clear()
         self.slots = []
 
+    none_str = "-"
+
     def close(self):
         CALLS.pop(getattr(self, "rid", None), None)
+        NONE_STR.pop(getattr(self, "rid", None), None)
 
     def _rid(self):
         """Run id under which the node functions report their evaluations (subclasses with their own __init__ keep a
@@ -161,6 +166,7 @@ class GraphRun:
             _RID[0] += 1
             self.rid = _RID[0]
             CALLS[self.rid] = self.calls
+            NONE_STR[self.rid] = self.none_str
         return self.rid
 
     def _fn(self, i, kind, seeded=False):
@@ -170,7 +176,7 @@ class GraphRun:
             _check(xs)
             if kind == "c":
                 CALLS[rid].append(i)
-            args = ["-" if x is None else str(x) for x in xs] + ([_keystr(seed)] if seeded else [])
+            args = [NONE_STR[rid] if x is None else str(x) for x in xs] + ([_keystr(seed)] if seeded else [])
             return Term(f"f{i}(" + ",".join(args) + ")")
         return fn
 
@@ -185,7 +191,7 @@ class GraphRun:
                 _check((*self.params, x))
                 if kind == "d":
                     CALLS[rid].append(i)
-                return Term(f"f{i}(" + ",".join("-" if v is None else str(v) for v in (*self.params, x)) + ")")
+                return Term(f"f{i}(" + ",".join(NONE_STR[rid] if v is None else str(v) for v in (*self.params, x)) + ")")
         return FakeDist
 
     # ---- observation ---------------------------------------------------------------
